@@ -166,6 +166,10 @@ TrIdxObj ==
   /\ up
   /\ \/ pc \in {"fl_idx", "cmp"} /\ Ev.idx \in mIdxSet
      \/ pc = "open_cb"
+  \* an HNSW node blob is only ever deleted for a node the index no longer holds (purge of removed nodes
+  \* after a flush, sweep of orphaned blobs at bootstrap) - never the blob of a live node
+  /\ (Ev.kind = "delete" /\ Has("node") /\ Ev.idx \in mIdxSet /\ Ev.res \in {"ok", "fault_landed"})
+        => Ev.node \notin mIdx[Ev.idx].h
   /\ UNCHANGED vars
 
 ---------------------------------------------------------------------------
